@@ -103,7 +103,8 @@ Theorem range_chunk_table buf : buf <> [] -> bytes_ok buf ->
   let len := N.of_nat (length buf) in let lr := lower_lr 8 LOG_RANGE len in
   exists frz al hops, normalize (histogram buf) (Z.of_N len) (2 ^ Z.of_N lr) = Some (frz, al) /\
     header_ops lr (alpha_of al) (tab_of frz) = Some hops /\
-    (8 <= lr <= 15)%N /\ StronglySorted N.lt (alpha_of al) /\ alpha_of al <> [] /\ table_ok lr (alpha_of al) (tab_of frz).
+    (8 <= lr <= 15)%N /\ StronglySorted N.lt (alpha_of al) /\ alpha_of al <> [] /\ table_ok lr (alpha_of al) (tab_of frz) /\
+    (lr <= 12)%N /\ sumN (tab_of frz) = (2 ^ lr)%N /\ Forall (fun b => In b (alpha_of al)) buf.
 Proof.
   intros Hne Hb len lr.
   assert (Hlr : (8 <= lr <= 12)%N) by (apply lower_lr_bounds; unfold LOG_RANGE; lia).
@@ -153,7 +154,18 @@ Proof.
     symmetry. apply negb_false_iff. apply forallb_forall. intros a Ha. unfold alpha_of in Ha. apply in_map_iff in Ha. destruct Ha as (j & <- & Hj).
     apply Hin in Hj. apply N.ltb_lt. lia. }
   destruct Hhops as [hops Hh].
-  exists frz, al, hops. split; [exact Hn|]. split; [exact Hh|]. split; [lia|]. split; [apply sorted_map_of_nat; exact Hsorted|]. split; [exact Hane|exact Htab].
+  assert (Htot : sumN (tab_of frz) = (2 ^ lr)%N).
+  { unfold tab_of. rewrite sumN_toN; [rewrite Hsum; exact Hsc2|]. apply Forall_forall. intros x Hx. destruct (In_nth _ _ 0%Z Hx) as (j & Hj & <-).
+    rewrite Hflen in Hj. exact (Hnn j Hj). }
+  assert (Hbuf : Forall (fun b => In b (alpha_of al)) buf).
+  { apply Forall_forall. intros b Hbin. pose proof (proj1 (Forall_forall _ _) Hb b Hbin) as Hb256. cbv beta in Hb256.
+    assert (Hj : In (N.to_nat b) al).
+    { apply Hin. split; [lia|]. rewrite histogram_get by lia. rewrite N2Nat.id. unfold cnt.
+      assert (Hf : In b (filter (N.eqb b) buf)) by (apply filter_In; split; [exact Hbin|apply N.eqb_refl]).
+      destruct (filter (N.eqb b) buf); [contradiction|cbn [length]; lia]. }
+    unfold alpha_of. rewrite <- (N2Nat.id b). apply in_map. exact Hj. }
+  exists frz, al, hops. split; [exact Hn|]. split; [exact Hh|]. split; [lia|]. split; [apply sorted_map_of_nat; exact Hsorted|]. split; [exact Hane|].
+  split; [exact Htab|]. split; [lia|]. split; [exact Htot|exact Hbuf].
 Qed.
 
 (* what RangeEncoder writes in front of ANY non-empty chunk of bytes is decoded by RangeDecoder to the table the encoder uses *)
@@ -169,7 +181,7 @@ Theorem range_chunk_header_roundtrip wbuf rbuf sched buf fr0 rest :
     run_arops s' (arops_of rest) = avals_of rest.
 Proof.
   intros Hne Hb Hl0 Hw Hw8 Hr Hr8 Hrest lr.
-  destruct (range_chunk_table buf Hne Hb) as (frz & al & hops & Hn & Hh & Hlr & Hs & Hane & Htab).
+  destruct (range_chunk_table buf Hne Hb) as (frz & al & hops & Hn & Hh & Hlr & Hs & Hane & Htab & _).
   destruct (range_header_stream_roundtrip wbuf rbuf sched _ _ _ hops fr0 rest Hlr Hs Hane Htab Hl0 Hh Hw Hw8 Hr Hr8 Hrest) as (s1 & s2 & s' & E1 & E2 & Ed & Er).
   exists frz, al, hops, s1, s2, s'. auto 8.
 Qed.
